@@ -24,17 +24,17 @@ package cmd
 //@ attr blocks
 //@ assigns *
 //@ may_emit *
-//@ ensures[C20] dial_error_is_returned: none(RpcClose) ==> result != nil
+//@ ensures[C20,C06] dial_error_is_returned: none(RpcClose) ==> result != nil
 //@ ensures[C20] connection_closed: count(RpcDial(_, _)) == 1 && all(RpcDial, $0 == "unix" && $1 == socketPath) && count(RpcClose(_)) <= 1
 
 //@ func (*cmd.deployCommand).preRun
 //@ requires cmd != nil
 //@ assigns c.args.ServiceOptions.Hosts, c.args.ServiceOptions.PathPrefixes, c.args.TargetOptions.ForwardHeaders
-//@ ensures[C20] nothing_sent_before_validation: none(RpcDial) && none(RpcCall)
-//@ ensures[C20] request_limit_needs_request_buffering: flagChanged(flagsOf(ref(cmd)), "max-request-body") && !flagChanged(flagsOf(ref(cmd)), "buffer-requests") ==> err != nil
-//@ ensures[C20] response_limit_needs_response_buffering: flagChanged(flagsOf(ref(cmd)), "max-response-body") && !flagChanged(flagsOf(ref(cmd)), "buffer-responses") ==> err != nil
-//@ ensures[C20] tls_needs_a_host: old(c.args.ServiceOptions.TLSEnabled) && len(old(c.args.ServiceOptions.Hosts)) == 0 ==> err != nil
-//@ ensures[C20] tls_needs_the_root_path: old(c.args.ServiceOptions.TLSEnabled) && len(old(c.args.ServiceOptions.PathPrefixes)) > 0 && !(exists i int :: 0 <= i && i < len(c.args.ServiceOptions.PathPrefixes) && c.args.ServiceOptions.PathPrefixes[i] == "/") ==> err != nil
+//@ ensures[C20,C06] nothing_sent_before_validation: none(RpcDial) && none(RpcCall)
+//@ ensures[C20,C14,C06] request_limit_needs_request_buffering: flagChanged(flagsOf(ref(cmd)), "max-request-body") && !flagChanged(flagsOf(ref(cmd)), "buffer-requests") ==> err != nil
+//@ ensures[C20,C14,C06] response_limit_needs_response_buffering: flagChanged(flagsOf(ref(cmd)), "max-response-body") && !flagChanged(flagsOf(ref(cmd)), "buffer-responses") ==> err != nil
+//@ ensures[C20,C16,C06] tls_needs_a_host: old(c.args.ServiceOptions.TLSEnabled) && len(old(c.args.ServiceOptions.Hosts)) == 0 ==> err != nil
+//@ ensures[C20,C16,C06] tls_needs_the_root_path: old(c.args.ServiceOptions.TLSEnabled) && len(old(c.args.ServiceOptions.PathPrefixes)) > 0 && !(exists i int :: 0 <= i && i < len(c.args.ServiceOptions.PathPrefixes) && c.args.ServiceOptions.PathPrefixes[i] == "/") ==> err != nil
 //@ ensures[C20,C13] forward_headers_default: err == nil && !flagChanged(flagsOf(ref(cmd)), "forward-headers") ==> c.args.TargetOptions.ForwardHeaders == !c.args.ServiceOptions.TLSEnabled
 //@ ensures[C20,C13] explicit_forward_headers_kept: flagChanged(flagsOf(ref(cmd)), "forward-headers") ==> c.args.TargetOptions.ForwardHeaders == old(c.args.TargetOptions.ForwardHeaders)
 //@ ensures[C20] accepted_otherwise: !(flagChanged(flagsOf(ref(cmd)), "max-request-body") && !flagChanged(flagsOf(ref(cmd)), "buffer-requests")) && !(flagChanged(flagsOf(ref(cmd)), "max-response-body") && !flagChanged(flagsOf(ref(cmd)), "buffer-responses")) && !old(c.args.ServiceOptions.TLSEnabled) ==> err == nil
